@@ -150,10 +150,16 @@ def arc_bracket(cf, t0, t1, pieces=720):
     return lo, hi
 
 
+class _DegenerateArc(Exception):
+    pass
+
+
 def ref_length(spec, seg, t0, t1):
     """returns (lo, hi, gl, singular)"""
     if spec[0] == 'A':
         cf = arc_cf(seg)
+        if cf['dl'] == 0:
+            raise _DegenerateArc()
         lo, hi = arc_bracket(cf, t0, t1)
         gl, ok = gl_length(lambda t: abs(arc_dpt(cf, t)), t0, t1)
         return lo, hi, (gl if ok else None), False
@@ -204,7 +210,15 @@ def _check_interval(ctx, spec, seg, t0, t1, size, iv):
         got = float(got)
     except Exception:
         ctx.fail('not_a_number/%s' % kind, 'length(%r,%r) returned %r' % (t0, t1, got))
-    lo, hi, gl, singular = ref_length(spec, seg, t0, t1)
+    try:
+        lo, hi, gl, singular = ref_length(spec, seg, t0, t1)
+    except _DegenerateArc:
+        ctx.discard('arc whose span collapsed to zero (radii >> chord: C04 finding KF01)')
+    # for tiny parameter intervals far from the origin the chord/polygon bracket is computed from differences of nearly equal
+    # points and is itself unreliable: it is used only when it is consistent with the derivative-based quadrature
+    if gl is not None and not (lo * (1 - 1e-9) - 1e-300 <= gl <= hi * (1 + 1e-9) + 1e-300):
+        ctx.count('bracket_inconsistent_with_quadrature_skipped')
+        lo, hi = gl, gl
     if singular:
         ctx.count('speed_zero_in_interval')
     if kind != 'L' and t1 > t0:
